@@ -293,11 +293,17 @@ class Nat(int):
     """An int to be written as a Coq nat."""
 
 
+class ZInt(int):
+    """An int to be written as a Coq Z."""
+
+
 def coq(x):
     if isinstance(x, bool):
         return "true" if x else "false"
     if isinstance(x, Nat):
         return f"{int(x)}%nat"
+    if isinstance(x, ZInt):
+        return f"({int(x)})%Z"
     if isinstance(x, int):
         return str(x) if x >= 0 else f"({x})%Z"
     if isinstance(x, str):
@@ -421,7 +427,9 @@ def run_coq_eval(name, imports, func, cases, shard=400, pre="", timeout=900):
         files.append(fn)
 
     def work(fn):
-        p = subprocess.run(["timeout", str(timeout), "coqc", "-noglob", "-Q", COQ, "Vicut", fn],
+        # vm_compute on deeply recursive model runs (the vic interpreter) needs more than the default 8 MB stack
+        p = subprocess.run(["bash", "-c", 'ulimit -s unlimited 2>/dev/null || ulimit -s 1000000 2>/dev/null; exec timeout "$@"', "coqc-run",
+                            str(timeout), "coqc", "-noglob", "-Q", COQ, "Vicut", fn],
                            stdout=subprocess.PIPE, stderr=subprocess.STDOUT, text=True, cwd=CASES)
         if p.returncode != 0:
             raise RuntimeError(f"coqc failed on {fn}:\n{p.stdout[-1500:]}")
